@@ -48,8 +48,24 @@ struct TopM_ : state_machine_def<TopM_> {
   template<class F,class Ev> void no_transition(Ev const&,F&,int){ g_log += "NTtop "; }
 };
 typedef BE<TopM_> TopM;
+// a derived event taken by the ONLY matching row, whose trigger is its base class: guard, exit, action and entry must see the event object
+// itself (dynamic type and derived payload intact), not a copy sliced to the trigger type (C18 payload integrity)
+struct pbase { int v; pbase(int x = 0) : v(x) {} virtual ~pbase() {} virtual int weight() const { return 1; } };
+struct pderived : pbase { pderived(int x = 0) : pbase(x) {} int weight() const override { return 700 + v; } };
+struct GW { template<class F,class S,class T> bool operator()(pbase const& e,F&,S&,T&){ g_log += "g" + std::to_string(e.weight()) + " "; return true; } };
+struct AW { template<class F,class S,class T> void operator()(pbase const& e,F&,S&,T&){ g_log += "a" + std::to_string(e.weight()) + " "; } };
+struct SB_ : state_machine_def<SB_> {
+  struct Q0 : state<> { template<class E,class F> void on_exit(E const&,F&){} template<class F> void on_exit(pbase const& e,F&){ g_log += "x" + std::to_string(e.weight()) + " "; } };
+  struct Q1 : state<> { template<class E,class F> void on_entry(E const&,F&){} template<class F> void on_entry(pbase const& e,F&){ g_log += "n" + std::to_string(e.weight()) + " "; } };
+  typedef Q0 initial_state;
+  struct transition_table : mpl::vector< Row<Q0, pbase, Q1, AW, GW> > {};
+  template<class F,class Ev> void no_transition(Ev const&,F&,int){ g_log += "NT "; }
+};
+typedef BE<SB_> SB;
 int main(int argc, char** argv) {
   if (argc > 1) g_only = argv[1];
+  { SB m; m.start(); g_log.clear(); m.process_event(pderived(7));
+    report("derived-event.single-base-class-row.behaviours-see-the-object-itself", g_log == "g707 x707 a707 n707 ", "C18,C13", "log=[" + g_log + "]"); }
   { TopM m; m.start(); g_log.clear(); m.process_event(derived_ev(11));
     report("in-submachine.derived.exact-wins", g_log == "exact:11 ", "C18,C07,C13", "log=[" + g_log + "]"); }
   { TopM m; m.start(); g_log.clear(); m.process_event(base_ev(22));
